@@ -534,6 +534,15 @@ func (em *emitter) emitAssignmentNode(node *ast.Assignment) {
 				indexType = exprType.Key()
 			}
 			index := em.emitExpr(v.Index, indexType)
+			if len(node.Lhs) > 1 {
+				// The operands of the index expressions on the left are
+				// evaluated before any assignment is carried out: copy the
+				// index, that can be the register of a variable assigned
+				// by the same statement.
+				tmp := em.fb.newRegister(indexType.Kind())
+				em.changeRegister(false, index, tmp, indexType, indexType)
+				index = tmp
+			}
 			switch exprType.Kind() {
 			case reflect.Map:
 				if nonLocalMap, ok := em.varStore.nonLocalVarIndex(v.Expr); ok {
